@@ -200,6 +200,25 @@ def relation_fails(base, other, kind):
         lim = 1e-12 if kind == "bt" else 2e-4
         if e > lim:
             fails.append(("C16/%s/field/%s" % ({"current": "reverse_current", "bt": "reverse_Bt", "twopi": "psi_divide_twopi"}[kind], name), {"max_rel_diff": e, "tol": lim}, {}))
+    if kind in ("current", "bt"):
+        # curvature: reversing a field direction may only change signs, so magnitudes agree at all
+        # three locations (this involves d(fpol)/dpsi, whose sign convention depends on the direction
+        # of psi)
+        for comp in "xyz":
+            for stem in ("bxcv", "curl_bOverB_"):
+                for loc in ("", "_xlow", "_ylow"):
+                    name = stem + comp + loc
+                    if name not in nb or name not in no:
+                        continue
+                    a, b = numpy.abs(nb[name]), numpy.abs(no[name])
+                    ok = numpy.isfinite(a) & numpy.isfinite(b)
+                    if not ok.any():
+                        continue
+                    sc = a[ok].max() + 1e-300
+                    e = float(numpy.abs(a - b)[ok].max() / sc)
+                    lim = 1e-10 if kind == "bt" else 2e-3
+                    if e > lim:
+                        fails.append(("C16/%s/curvature-magnitude/%s" % ({"current": "reverse_current", "bt": "reverse_Bt"}[kind], stem + comp), {"variable": name, "max_rel_diff": e, "tol": lim}, {}))
     return fails
 
 
@@ -284,7 +303,9 @@ def run(run):
     run.assumptions = [
         "mirror comparison is region by region (names with lower/upper exchanged) with the y index reversed; position "
         "tolerance 20 x (10 refine_atol + 4e-8 + (L/Nfine)^2) because the two runs traverse each contour in opposite directions",
-        "fields compared at cell centres: equal (psixy, hy, Bxy, diagonal metric) or equal in magnitude",
+        "fields compared at cell centres: equal (psixy, hy, Bxy, diagonal metric) or equal in magnitude; under "
+        "reverse_current / reverse_Bt also the magnitudes of bxcv* and curl_bOverB_* at all three locations "
+        "(2e-3 of the maximum for reverse_current, whose positions agree to 1e-5 only)",
         "reverse_current / reverse_Bt on the original arrays must be bit-identical to running on arrays negated by the "
         "caller; against the unreversed case positions agree to 1e-5 (reverse_current) / exactly (reverse_Bt)",
     ]
